@@ -1547,8 +1547,31 @@ def gen_clipvertex():
     adv = next((st for st in push[3][1] if st[0] == 'assign' and st[1] == '=' and st[3] == ('path', [nxt])), None)
     cur = adv[2][1][0] if adv is not None and adv[2][0] == 'path' else None
     # the new plane index: the length of `clipping_planes` before the push
-    pl = extract2.find_node(blk, lambda n: n[0] == 'let' and n[4] == ('mcall', ('field', ('path', ['self']), 'clipping_planes'), 'len', []))
-    newp = pl[2][1] if pl is not None and pl[2][0] == 'pvar' else None
+    # (`let p = self.clipping_planes.len()` before the push, or `… .len() - 1` after it)
+    LEN = ('mcall', ('field', ('path', ['self']), 'clipping_planes'), 'len', [])
+
+    def is_push(st):
+        return st[0] == 'expr' and st[1][0] == 'mcall' and st[1][2] == 'push' and st[1][1] == ('field', ('path', ['self']), 'clipping_planes')
+
+    def plane_index_var(node):
+        if isinstance(node, tuple) and node and node[0] == 'block':
+            stmts = node[1]
+            k = next((i for i, st in enumerate(stmts) if is_push(st)), None)
+            if k is not None:
+                for i, st in enumerate(stmts):
+                    if st[0] == 'let' and st[2][0] == 'pvar':
+                        if i < k and st[4] == LEN:
+                            return st[2][1]
+                        if i > k and st[4] in (('bin', '-', LEN, ('num', '1')), ('paren', ('bin', '-', LEN, ('num', '1')))):
+                            return st[2][1]
+        if isinstance(node, (tuple, list)):
+            for x in node:
+                if isinstance(x, (tuple, list)):
+                    r = plane_index_var(x)
+                    if r is not None:
+                        return r
+        return None
+    newp = plane_index_var(blk)
     role = {nxt: 'next'}
     if cur:
         role[cur] = 'cur'
